@@ -32,8 +32,9 @@ type c10Case struct {
 	Inbound int       `json:"inbound"` // inbound QoS1/QoS2 messages sent by the peer meanwhile
 	Close   bool      `json:"close"`   // one more goroutine closes the client while the others run
 	// reconnect variant
-	Cuts   int `json:"cuts,omitempty"`
-	PingMs int `json:"pingMs,omitempty"`
+	Cuts   int  `json:"cuts,omitempty"`
+	PingMs int  `json:"pingMs,omitempty"`
+	Direct bool `json:"direct,omitempty"` // DirectlyPublishQoS0: QoS0 publishes are written by the callers themselves
 }
 
 var c10Kinds = []string{"pub0", "pub1", "pub1", "pub2", "pub2", "sub", "unsub", "ping", "handle", "stats", "done", "err", "client"}
@@ -52,6 +53,7 @@ func c10Gen(rt *rapid.T, reconnect bool) c10Case {
 	if reconnect {
 		c.Cuts = rapid.IntRange(1, 4).Draw(rt, "cuts")
 		c.PingMs = rapid.IntRange(1, 3).Draw(rt, "pingMs")
+		c.Direct = rapid.Bool().Draw(rt, "direct")
 	} else {
 		c.Close = rapid.IntRange(0, 3).Draw(rt, "close") == 0
 	}
@@ -226,7 +228,7 @@ func c10ReconnectRun(tb rapid.TB, c c10Case) {
 	log := &vLog{}
 	b := newVBroker(log, true, false, nil)
 	d := &vdialer{b: b, unsafe: true}
-	rc := &RetryClient{OnError: func(error) {}}
+	rc := &RetryClient{OnError: func(error) {}, DirectlyPublishQoS0: c.Direct}
 	cliI, err := NewReconnectClient(d, WithRetryClient(rc), WithReconnectWait(200*time.Microsecond, time.Millisecond),
 		WithPingInterval(time.Duration(c.PingMs)*time.Millisecond), WithTimeout(2*time.Second))
 	if err != nil {
